@@ -824,3 +824,65 @@ Proof.
   intros a t l Wa Wb Ht H. rewrite (compat_characterised _ _ Wa Wb).
   apply (subb_union_r _ t l Ht). rewrite <- (compat_characterised a t Wa) by side. exact H.
 Qed.
+
+(* ---------- completeness without TypeVar guard ---------- *)
+
+Lemma existsb_mono {A} (f g : A -> bool) l :
+  (forall x, In x l -> f x = true -> g x = true) -> existsb f l = true -> existsb g l = true.
+Proof.
+  intros H E. apply existsb_exists in E. destruct E as [x [Hx Hf]]. apply existsb_exists. exists x. auto.
+Qed.
+
+Lemma forallb2_mono {A B} (f g : A -> B -> bool) l1 l2 :
+  (forall x y, In x l1 -> In y l2 -> f x y = true -> g x y = true) -> forallb2 f l1 l2 = true -> forallb2 g l1 l2 = true.
+Proof.
+  revert l2; induction l1 as [|x l1 IH]; intros [|y l2] H E; simpl in *; try reflexivity.
+  apply andb_prop in E. destruct E as [E1 E2]. rewrite (H x y) by auto. apply IH; auto.
+Qed.
+
+(* reading the TypeVars of the source as unknown only makes it more compatible *)
+Lemma subb_vars_unknown_mono : forall a b, subb a b = true -> subb (vars_unknown a) b = true.
+Proof.
+  intros a b; pattern a, b; apply pair_size_ind; clear a b; intros a b IH H.
+  destruct (is_top b) eqn:Tb. { apply subb_top. exact Tb. }
+  assert (TS : forall q, atomic q = true -> atomic a = true ->
+               (forall y, size y < size b -> subb a y = true -> subb q y = true) ->
+               (head_sub subb a b = true -> head_sub subb q b = true) ->
+               target_sub subb a b = true -> target_sub subb q b = true).
+  { intros q Hq Ha Hy Hh. unfold target_sub.
+    destruct b as [c'| | |l'|o' args'|o'|p' m'|e'|n' bd' cs'|u']; try discriminate; try exact Hh.
+    - apply existsb_mono. intros y Hin. apply Hy. sz.
+    - apply Hy. sz.
+    - destruct bd' as [x|].
+      + intros E. apply orb_prop in E. destruct E as [E|E].
+        * rewrite (Hy x) by (simpl; lia || exact E). reflexivity.
+        * rewrite (existsb_mono _ (fun y => subb q y) cs' (fun y Hin => Hy y ltac:(sz)) E). apply orb_true_r.
+      + destruct cs' as [|c0 cs']; [reflexivity|]. intros E. rewrite orb_false_l in *.
+        apply (existsb_mono _ (fun y => subb q y) (c0 :: cs') (fun y Hin => Hy y ltac:(sz)) E). }
+  destruct a as [c| | |l|o args|o|p m|e|n bd cs|u]; cbn [vars_unknown]; try exact H; try apply subb_noann_l.
+  - rewrite subb_src_union in *. rewrite forallb_map. rewrite forallb_forall in *. intros x Hx.
+    apply IH; [sz|auto].
+  - rewrite (subb_atomic (TGen o args) b eq_refl Tb) in H. rewrite (subb_atomic (TGen o (map vars_unknown args)) b eq_refl Tb).
+    revert H. apply TS; try reflexivity.
+    + intros y Hy E.
+      assert (K := IH (TGen o args) y ltac:(simpl in *; lia) E). exact K.
+    + unfold head_sub. destruct b as [c'| | |l'|o' args'|o'|p' m'|e'|n' bd' cs'|u']; auto.
+      * rewrite map_length, forallb2_map_l. intros E. apply andb_prop in E. destruct E as [E E3].
+        rewrite E. simpl. revert E3. apply forallb2_mono. intros x y Hx Hy. apply IH. sz.
+      * intros E. exact (IH (TGen o args) nd_obj ltac:(simpl in *; lia) E).
+  - rewrite subb_src_annot in *. apply IH; [sz|auto].
+  - rewrite (subb_atomic (TArray e) b eq_refl Tb) in H. rewrite (subb_atomic (TArray (vars_unknown e)) b eq_refl Tb).
+    revert H. apply TS; try reflexivity.
+    + intros y Hy E. exact (IH (TArray e) y ltac:(simpl in *; lia) E).
+    + unfold head_sub. destruct b as [c'| | |l'|o' args'|o'|p' m'|e'|n' bd' cs'|u']; auto.
+      apply IH. sz.
+Qed.
+
+Lemma sub_vars_unknown_mono : forall a b, sub a b -> sub (vars_unknown a) b.
+Proof. intros a b H. apply subb_iff_sub. apply subb_vars_unknown_mono. apply subb_iff_sub. exact H. Qed.
+
+(* completeness without TypeVar guard: whatever the reference accepts, the code accepts *)
+Theorem compat_complete : forall a b, wf a = true -> wf b = true -> sub a b -> compat a b = true.
+Proof.
+  intros a b Wa Wb H. rewrite (compat_characterised a b Wa Wb). apply subb_vars_unknown_mono. apply subb_iff_sub. exact H.
+Qed.
